@@ -450,4 +450,16 @@ def r2_9(ctx):
     ctx.floor(n, 2, "measurements of the current word in divide_line")
 
 
-RULES = [r2_1, r2_2, r2_3, r2_4, r2_5, r2_6, r2_7, r2_8, r2_10, r2_9]
+def r2_11(ctx):
+    from .c13 import r13_2
+    from .common import borrow
+    borrow(ctx, r13_2, "R13.2", "R2.11", " [a line fits the width only if the width of every character is looked up in the right range of the table]")
+
+
+def r2_12(ctx):
+    from .c05 import r5_2
+    from .common import borrow
+    borrow(ctx, r5_2, "R5.2", "R2.12", " [full justification re-assembles a line with Text.join: each piece's base style must stay below the piece's own spans, and spans keep their offsets]")
+
+
+RULES = [r2_1, r2_2, r2_3, r2_4, r2_5, r2_6, r2_7, r2_8, r2_10, r2_9, r2_11, r2_12]
